@@ -221,6 +221,13 @@ class ProgGen(object):
             choices += ["arith"] * 4
         if t == BOOL:
             choices += ["cmp"] * 3 + ["logic"] * 2
+        if "strop" in self.feat and "str" in self.feat:     # opt-in feature: concat, #, = on strings
+            if t == STR:
+                choices += ["strcat"] * 3
+            if t == SI:
+                choices += ["strlen"]
+            if t == BOOL:
+                choices += ["strcmp"]
         # Conditionals (if / => / and / or) are generated inside functions, lambdas, generators, domain operations and
         # macros only: at file level the type checker's conditional context mis-resolves overloaded, qualified and
         # literal meanings (open findings F3, F5, F6 and relatives, each kept visible by a fixed program).
@@ -324,6 +331,12 @@ class ProgGen(object):
                 return prim("bool." + r.choice(["eq", "ne"]), self.expr(BOOL, scope, d - 1), self.expr(BOOL, scope, d - 1))
             p = "si" if at == SI else "bi"
             return prim(p + "." + r.choice(["lt", "le", "gt", "ge", "eq", "ne"]), self.expr(at, scope, d - 1), self.expr(at, scope, d - 1))
+        if c == "strcat":
+            return prim("str.cat", self.expr(STR, scope, d - 1), self.expr(STR, scope, d - 1))
+        if c == "strlen":
+            return prim("str.len", self.expr(STR, scope, d - 1))
+        if c == "strcmp":
+            return prim("str." + r.choice(["eq", "ne"]), self.expr(STR, scope, d - 1), self.expr(STR, scope, d - 1))
         if c == "logic":
             k = r.choice(["and", "or", "not"])
             if k == "not":
@@ -1221,7 +1234,7 @@ def generate(seed, n, features=None, emph=(), extras=True):
     for i in range(n):
         g = ProgGen(seed * 100003 + i, features=features, emph=emph)
         if extras and features is None and i % 3 == 2:
-            g.feat |= {"tup", "coll", "filt", "adt", "kwd"}
+            g.feat |= {"tup", "coll", "filt", "adt", "kwd", "strop"}
             if "try" in g.feat and i % 2:
                 g.enable_payload()
         out.append(g.program("g%d_%d" % (seed, i)))
